@@ -572,8 +572,16 @@ func checkC20Swallow(p *Prog, r *Report, ru *Rule) {
 					if ifi, ok := j.(*ssa.If); ok {
 						if cc, ok := decodeCond(ifi.Cond).X.(*ssa.Call); ok {
 							n := calleeName(cc.Common())
-							if ("errors.Is" == n || "os.IsNotExist" == n || "errors.As" == n) && cc.Common().Args[0] == errV {
-								return true
+							if "errors.Is" == n || "os.IsNotExist" == n || "errors.As" == n {
+								if cc.Common().Args[0] == errV {
+									return true
+								}
+								/* Or of a wrapping of it. */
+								for _, src := range errorSources(cc.Common().Args[0], 0) {
+									if nil != src.Call && ssa.Value(src.Call) == ssa.Value(call) {
+										return true
+									}
+								}
 							}
 						}
 					}
@@ -617,6 +625,27 @@ func checkC20Swallow(p *Prog, r *Report, ru *Rule) {
 // classified: the success return is reached through an errors.Is / os.IsNotExist
 // test of this very error (a deliberate, typed exception).
 func classified(fn *ssa.Function, errV ssa.Value, ret ssa.Instruction) bool {
+	wraps := func(v ssa.Value) bool {
+		if v == errV {
+			return true
+		}
+		var origin *ssa.Call
+		switch x := errV.(type) {
+		case *ssa.Call:
+			origin = x
+		case *ssa.Extract:
+			origin, _ = x.Tuple.(*ssa.Call)
+		}
+		if nil == origin {
+			return false
+		}
+		for _, src := range errorSources(v, 0) {
+			if src.Call == origin {
+				return true
+			}
+		}
+		return false
+	}
 	for _, b := range fn.Blocks {
 		ifi := blockIf(b)
 		if nil == ifi {
@@ -627,7 +656,7 @@ func classified(fn *ssa.Function, errV ssa.Value, ret ssa.Instruction) bool {
 			continue
 		}
 		n := calleeName(c.Common())
-		if ("errors.Is" == n || "os.IsNotExist" == n || "errors.As" == n) && c.Common().Args[0] == errV {
+		if ("errors.Is" == n || "os.IsNotExist" == n || "errors.As" == n) && wraps(c.Common().Args[0]) {
 			if edgeDominates(ifi, 0, ret) || edgeDominates(ifi, 1, ret) {
 				return true
 			}
